@@ -485,6 +485,7 @@ func evalCrypter(d crypterDesc) ev.Result {
 		}
 		return ev.Trivial("positive")
 	}
+	// the same content protected by an INDEPENDENT session of the same suite and cipher
 	other, _ := encode(osnd, payload)
 	tw, ok := apply(wire, d.Tamper, cref, other, plaintext, wire2)
 	if !ok || bytes.Equal(tw, wire) {
@@ -498,6 +499,11 @@ func evalCrypter(d crypterDesc) ev.Result {
 	r.ID = fmt.Sprintf("%s|%d|%v|%s|%d|%d", d.Suite, d.Cipher, d.ToOwner, d.Tamper.Op, d.Tamper.Arg%2048, d.Size)
 	if derr != nil {
 		return r
+	}
+	if d.Tamper.Op == "cross-session" {
+		// keys are derived per session: whatever it contains, a message protected by another
+		// session must not open under this session's keys
+		return ev.Failf("cross-session-accepted", "%s: a message protected under the keys of an independent session was accepted by this session (keys are not session-specific)", tag)
 	}
 	if bytes.Equal(pt, plaintext) {
 		r.Class = "accepted-same-plaintext/" + d.Tamper.Op
